@@ -267,6 +267,12 @@ def clientProtocolFn (j : Json) : P Json := do
   return Json.mkObj [("rows", storeToJson s.cache.rows), ("failed", .bool s.failed), ("deferring", .bool s.deferring),
     ("events", listToJson eventToJson s.cache.log)]
 
+/-- {existing: [[table]], tables: [table]} -> does `Monitor()` accept the new monitor? -/
+def monitorAcceptedFn (j : Json) : P Json := do
+  let existing ← jList (jList jStr) (← jField j "existing")
+  let tables ← jList jStr (← jField j "tables")
+  return .bool (monitorAccepted existing tables)
+
 end Ovsdb
 
 /-! ### C20: generated field types -/
